@@ -1463,6 +1463,16 @@ fn compile_sources_with_generics_preserved(
   }
 }
 
+/// Verification hook (only with `--cfg samlang_verif`): the HIR exactly as lowered from the
+/// checked sources, before generics specialization. Adds no behaviour.
+#[cfg(samlang_verif)]
+pub fn verif_compile_sources_to_hir(
+  heap: &mut Heap,
+  sources: &HashMap<ModuleReference, source::Module<Arc<type_::Type>>>,
+) -> hir::Sources {
+  compile_sources_with_generics_preserved(heap, sources)
+}
+
 fn optimize_by_tail_rec_rewrite(heap: &mut Heap, sources: mir::Sources) -> mir::Sources {
   let mir::Sources {
     symbol_table,
